@@ -307,7 +307,7 @@ pub fn main(args: &Args) -> i32 {
     report.set("inbound_stream_bytes", json!(inbound_len));
     for (name, f) in faults {
         let plan = SchedPlan {
-            bounds: if quick { vec![Some(1)] } else { vec![Some(2)] },
+            bounds: if quick { vec![Some(2)] } else { vec![Some(3)] },
             max_execs: 5_000_000,
             time_budget_s: args.tier.pick(60.0, 600.0),
         };
